@@ -12,6 +12,7 @@
 #else
 #define STORAGE(s) ((Elem *) (s)->m_data.m_storage.m_data)
 #endif
+#define SVB(v)     (&(v)->base)                     /* the small_vector_base sub-object of a small_vector */
 #define END(s)     (DATA (s) + SZ (s))
 #define CAPEND(s)  (DATA (s) + CAP (s))
 
